@@ -108,6 +108,11 @@ class Tagger:
 
         def get(o, k):
             log.append(('get', n))
+            # ('hold' / '0' let a path continue THROUGH an object that is served by a tagged handler)
+            if k == 'hold':
+                return o['hold'] if isinstance(o, dict) else o.__dict__['hold']
+            if k == '0' and isinstance(o, (list, tuple)) and len(o) == 1:
+                return o[0]
             return ('got', n)
 
         def iterate(o):
@@ -126,11 +131,15 @@ class Tagger:
         return {'get': get, 'iterate': iterate, 'keys': keys, 'assign': assign, 'delete': delete}
 
 
+# ONE spec object per operation for the whole run: used on every registry, before and after every registration
+_SPECS = {'get': 'x', 'iterate': [T], 'keys': '*', 'assign': Assign('x', 1), 'delete': Delete('x')}
+
+
 def observe(driver_glom, obj, op, tagger):
     """run the public API that exercises `op` on obj; returns the tag of the handler that ran,
     'UNREGISTERED', or ('other', description)"""
     del tagger.log[:]
-    spec = {'get': 'x', 'iterate': [T], 'keys': '*', 'assign': Assign('x', 1), 'delete': Delete('x')}[op]
+    spec = _SPECS[op]
     got = call(driver_glom, obj, spec)
     tags = [t for o, t in tagger.log if o == op]
     if tags:
@@ -140,6 +149,38 @@ def observe(driver_glom, obj, op, tagger):
     if op == 'keys' and got.ok:
         return 'NO-KEYS-HANDLER'    # '*' fell back to iterate / nothing
     return ('other', repr(got))
+
+
+def observe_below_holders(driver_glom, inst, tagger, classes, base_known):
+    """the handler chosen for `inst` when it is reached through one more path segment, from a holder whose type is an
+    ANCESTOR of type(inst): [(description, tag of the handler that served the last segment)]"""
+    out = []
+    cls = type(inst)
+    holders = []
+    if base_known:
+        if isinstance(inst, dict):
+            holders.append(('a plain dict', {'hold': inst}, 'hold.x'))
+        elif isinstance(inst, list):
+            holders.append(('a plain list', [inst], '0.x'))
+        elif isinstance(inst, tuple):
+            holders.append(('a plain tuple', (inst,), '0.x'))
+    for H in cls.__mro__[1:]:
+        if H in classes and H is not object:
+            h = make_instance(H)
+            if hasattr(h, '__dict__') and not isinstance(h, (dict, list, tuple)):
+                h.__dict__['hold'] = inst
+                holders.append(('an instance of its ancestor %s' % H.__name__, h, 'hold.x'))
+    for desc, holder, spec in holders:
+        del tagger.log[:]
+        got = call(driver_glom, holder, spec)
+        tags = [t for o, t in tagger.log if o == 'get']
+        if got.ok and got.value == ('got', tags[-1] if tags else None):
+            out.append((desc, tags[-1]))
+        elif not got.ok and isinstance(got.exc, UnregisteredTarget):
+            out.append((desc, 'UNREGISTERED'))
+        else:
+            out.append((desc, ('other', repr(got))))
+    return out
 
 
 def make_instance(cls):
@@ -204,6 +245,17 @@ def run_config(col, kind, make_driver, fam_name, regs, order, exacts, instances,
                     if isinstance(seen, tuple):
                         ok = True
                     want = 'no registered type of the family'
+                if ok and op == 'get' and isinstance(seen, str) and seen not in ('UNREGISTERED', 'NO-KEYS-HANDLER'):
+                    # the same object one path segment further down, below a holder whose type is one of its ancestors
+                    for hdesc, seen2 in observe_below_holders(driver['glom'], inst, tagger, [type(i) for i in instances], base_known):
+                        col.count('lookups_below_an_ancestor_typed_holder')
+                        if isinstance(seen2, str) and seen2 != seen and seen2 != 'UNREGISTERED':
+                            col.violation('C13/handler-differs-below-an-ancestor-typed-holder:%s' % fam_name,
+                                          '%s registry, registrations %s: an instance of %s is served by the handler of %r at the root of '
+                                          'the target, but by the handler of %r when it is held by %s'
+                                          % (label, ' -> '.join(steps), cls.__name__, seen, seen2, hdesc),
+                                          {'family': fam_name, 'steps': steps, 'class': cls.__name__})
+                            return
                 if not ok:
                     mro = [c.__name__ for c in cls.__mro__]
                     kindkey = 'exact-leaks-to-subclass' if seen in [t.__name__ for t in registered if t not in fuzzy] and seen != cls.__name__ \
